@@ -702,7 +702,6 @@ func typeRole(o types.Object) string {
 	return "«" + q + "»"
 }
 
-
 // roleStr renders an expression with every local variable replaced by a name
 // derived from its type (see typeRole); fields, package-level objects and
 // constants keep their names. Used for obligation keys and guard texts so that
